@@ -1,6 +1,6 @@
 (* Single entry point of the executable model: function number, then its arguments. *)
 From Coq Require Import List ZArith.
-From PGA Require Import Wire WireCont WireMisc WireDissim.
+From PGA Require Import Wire WireCont WireMisc WireDissim WireAlign2 WireFast.
 Import ListNotations.
 Local Open Scope Z_scope.
 
@@ -12,6 +12,8 @@ Definition run (s : list Z) : list Z :=
     else if f <? 200 then run_cont (Z.to_nat (f - 100)) r
     else if f <? 300 then run_misc (Z.to_nat (f - 200)) r
     else if f <? 400 then run_dissim (Z.to_nat (f - 300)) r
+    else if f <? 500 then run_align2 (Z.to_nat (f - 400)) r
+    else if f <? 600 then run_fast (Z.to_nat (f - 500)) r
     else [-2]
   | [] => [-3]
   end.
